@@ -112,12 +112,27 @@ func (g *generator) declareDefinition(definitionName string, schema *schemaparse
 }
 
 func (g *generator) walkDefinition(schema *schemaparser.Schema) (ast.Type, error) {
-	var def ast.Type
-	var err error
-
 	if schema.Ref != nil {
 		return g.walkRef(schema)
 	}
+
+	def, err := g.walkSchema(schema)
+	if err != nil {
+		return ast.Type{}, err
+	}
+
+	// `default` is an annotation: it can be set on any kind of schema, not
+	// only on the scalars and arrays that read it themselves.
+	if def.Default == nil && schema.Default != nil {
+		def.Default = unwrapDefault(schema.Default)
+	}
+
+	return def, nil
+}
+
+func (g *generator) walkSchema(schema *schemaparser.Schema) (ast.Type, error) {
+	var def ast.Type
+	var err error
 
 	if schema.OneOf != nil {
 		return g.walkOneOf(schema)
